@@ -145,6 +145,9 @@ func (fr *Frame) callUnknownFunc(fv Val, args []Val, st *State, pos token.Pos, s
 	fx := fr.fx
 	fx.oblige("nil", fr.path+"/nil/funcvalue#", st, not(eq(fv.ts[0], "0")), pos, "")
 	fx.noteAssumption("callbacks invoked through function values are pure, deterministic and return normally")
+	if sp := fr.spec; sp != nil && (len(sp.CbRequires) > 0 || len(sp.CbModifies) > 0 || len(sp.CbEnsures) > 0) {
+		defer fr.callbackEffects(sp, st, pos)()
+	}
 	res := sig.Results()
 	if res.Len() == 0 {
 		fx.logCallback(st, args, nil)
@@ -173,6 +176,28 @@ func (fr *Frame) callUnknownFunc(fv Val, args []Val, st *State, pos token.Pos, s
 	fx.assume(st.guard, typeInvariant(out))
 	fx.logCallback(st, args, &out)
 	return &out
+}
+
+// callbackEffects checks the conditions the contract demands at a callback
+// (e.g. "the lock is released") and returns a function that, after the call,
+// forgets the state the callback may have changed through re-entrant calls
+// and assumes what the contract guarantees about it.
+func (fr *Frame) callbackEffects(sp *FuncSpec, st *State, pos token.Pos) func() {
+	fx := fr.fx
+	for i, r := range sp.CbRequires {
+		t := fr.evalClause(r, st, nil, nil)
+		fx.oblige("requires", fmt.Sprintf("%s/callback/requires/%s#", fr.path, clauseName(r, i)), st, t, pos, r.Src)
+	}
+	return func() {
+		env := fr.envFor(st, fr.entry, nil)
+		for _, m := range sp.CbModifies {
+			fr.havocLocation(env, m, st, "callback")
+		}
+		for _, c := range sp.CbEnsures {
+			c := c
+			fx.assume(st.guard, fx.hyp(func() T { return fr.evalClause(c, st, nil, nil) }))
+		}
+	}
 }
 
 // logCallback appends a call through an unknown function value to the ghost
@@ -362,10 +387,60 @@ func (fr *Frame) callWithSpec(callee *ssa.Function, spec *FuncSpec, args []Val, 
 		t := fx.hyp(func() T { return post.eval(c.E).asBool() })
 		fx.assume(st.guard, t)
 	}
+	if key == "sync.(*Mutex).Lock" || key == "sync.(*Mutex).Unlock" {
+		fr.monitorHook(key == "sync.(*Mutex).Lock", args[0], st, pre, pos)
+	}
 	if callee == nil {
 		return nil
 	}
 	return tupleOf(callee.Signature, resVals)
+}
+
+// monitorHook applies the monitor discipline of the mutex field addressed by
+// mu: after Lock the protected state is unknown but satisfies the invariant;
+// before Unlock the invariant must hold (checked in the pre-call state).
+func (fr *Frame) monitorHook(isLock bool, mu Val, st *State, pre *State, pos token.Pos) {
+	fx := fr.fx
+	if mu.ptr == nil || mu.ptr.cell != nil || len(mu.ptr.path) != 1 || mu.ptr.path[0].field < 0 {
+		return
+	}
+	root := mu.ptr.root
+	mkey := embeddedKey(root, mu.ptr.path[0].field)
+	mon := fx.eng.contracts.Monitors[mkey]
+	if mon == nil {
+		return
+	}
+	obj := Val{sh: &Shape{kind: KPtr, elem: root, key: "*" + root.key}, ts: []T{mu.ts[0]}}
+	mkEnv := func(s *State) *Env {
+		env := &Env{fx: fx, vars: map[string]CV{mon.Var: cvOf(obj)}, st: s, old: fr.entry, pkg: fx.eng.pkgOf(mon.Pkg), bound: map[string]bool{}}
+		return env
+	}
+	if isLock {
+		env := mkEnv(st)
+		if !fx.eng.sequential {
+			for _, m := range mon.Modifies {
+				fr.havocLocation(env, m, st, "monitor "+mkey)
+			}
+		} else {
+			fx.noteAssumption("sequential mode: no other goroutine runs between a method's entry and its Lock (histories of calls, including re-entrant calls from callbacks, are covered; interleavings are the subject of the lock-discipline property)")
+		}
+		env = mkEnv(st)
+		for _, inv := range append(append([]Clause{}, mon.Invariants...), mon.Assumed...) {
+			inv := inv
+			fx.assume(st.guard, fx.hyp(func() T { return env.eval(inv.E).asBool() }))
+		}
+		for _, inv := range mon.Assumed {
+			fx.noteAssumption("UNCHECKED data-structure invariant assumed when " + mkey + " is acquired (not proved at Unlock): " + inv.Label)
+		}
+		fx.noteAssumption("monitor discipline for " + mkey + ": state protected by the mutex is only changed by lock holders, so it satisfies the monitor invariant whenever the lock is acquired")
+		return
+	}
+	env := mkEnv(pre)
+	gst := pre.clone()
+	gst.guard = st.guard
+	for i, inv := range mon.Invariants {
+		fx.oblige("invariant", fmt.Sprintf("%s/unlock/monitor_invariant/%s#", fr.path, clauseName(inv, i)), gst, env.eval(inv.E).asBool(), pos, inv.Src)
+	}
 }
 
 // pureResult builds result component terms as uninterpreted functions of the
@@ -454,6 +529,32 @@ func (fr *Frame) havocLocation(env *Env, loc string, st *State, who string) {
 	}
 	switch x := e.(type) {
 	case *ECall:
+		if x.Fn == "allof" {
+			// every object of the named struct type / every map of the named map type
+			id, ok := x.Args[0].(*EStr)
+			if !ok {
+				unsupp("modifies allof(\"T\")")
+			}
+			sh := shapeOf(env.resolveTypeExpr(id.V))
+			fx := fr.fx
+			if sh.kind == KMap {
+				has, val, hasSort, valSorts, _ := mapHeaps(sh)
+				st.heaps[has[0]] = fx.decls.Fresh("hv", arrSort(hasSort))
+				fx.heapSorts[has[0]] = arrSort(hasSort)
+				for c := range val {
+					st.heaps[val[c]] = fx.decls.Fresh("hv", arrSort(valSorts[c]))
+					fx.heapSorts[val[c]] = arrSort(valSorts[c])
+				}
+				st.heaps["ML|"+sh.key] = fx.decls.Fresh("hv", arrSort(sInt))
+				fx.heapSorts["ML|"+sh.key] = arrSort(sInt)
+				return
+			}
+			for c := 0; c < sh.ncomp(); c++ {
+				st.heaps[heapName(sh, c)] = fx.decls.Fresh("hv", heapSort(sh, c))
+				fx.heapSorts[heapName(sh, c)] = heapSort(sh, c)
+			}
+			return
+		}
 		if x.Fn == "backing" {
 			cv := env.eval(x.Args[0])
 			if cv.k != cvVal || cv.v.sh.kind != KSlice {
@@ -1177,6 +1278,9 @@ func mapHeaps(m *Shape) (has, val []string, hasSort string, valSorts []string, k
 // keyTerm maps a key value to its SMT key: strings go through an
 // uninterpreted content id that respects content equality.
 func (fx *FnCtx) keyTerm(k Val) T {
+	if k.sh.kind == KStr && len(k.ts) == 1 {
+		return k.ts[0] // already a content id (contracts quantifying over keys)
+	}
 	if k.sh.kind == KStr {
 		fx.decls.Raw("(declare-fun |str.id| ((Array Int Int) Int Int) Int)")
 		fx.decls.Raw(streqDef)
@@ -1210,7 +1314,7 @@ func (fx *FnCtx) mapLen(st *State, m Val) T {
 	h := fx.heapTerm(st, "ML|"+m.sh.key, arrSort(sInt))
 	n := fx.selHeap(h, m.ts[0])
 	// a nil map has length 0; lengths are never negative
-	fx.assumes = append(fx.assumes, le("0", n))
+	fx.assumeOnce(and(le("0", n), le(n, maxLen)))
 	return ite(eq(m.ts[0], "0"), "0", n)
 }
 
@@ -1291,6 +1395,13 @@ func (fr *Frame) execLookup(x *ssa.Lookup, st *State) {
 // intrinsic handles a few library functions natively.
 func (fr *Frame) intrinsic(key string, callee *ssa.Function, args []Val, st *State, pos token.Pos) (*Val, bool) {
 	fx := fr.fx
+	if strings.HasSuffix(key, ".structPtr") && len(args) == 2 {
+		// container-of: from the address of an embedded field back to the
+		// enclosing object (inverse of the embedded-field address)
+		fx.noteAssumption("structPtr(p, Offsetof(T{}.f)) is the inverse of taking the address of the embedded field f")
+		out := mkInt(shapeOf(callee.Signature.Results().At(0).Type()), fx.define("owner", sInt, app("div", sub(args[0].t(), embBase), "64")))
+		return &out, true
+	}
 	switch key {
 	case "errors.As":
 		// errors.As(err, target): target is a non-nil pointer; on success the
